@@ -3,12 +3,16 @@
 package cluster_test
 
 import (
+	"bufio"
 	"fmt"
+	"io"
 	"net"
 	"os"
+	"os/exec"
 	"sort"
 	"strings"
 	"sync"
+	"syscall"
 	"testing"
 	"time"
 
@@ -163,6 +167,9 @@ func vfRealCount(nodes []*vfRealNode) (n int) {
 func TestVerif_gossipreal(t *testing.T) {
 	R := verifrt.NewReport("gossipreal", "real ActorSystems with remoting + cluster on loopback TCP (interval 300 ms, detection timeout 3 s), public API only: (1) 4 nodes join through one seed; (2) a non-seed node is stopped (graceful Leave + Stop); (3) it is started again at the same address (fresh node id, the default); (4) a late fifth node joins. After each phase: bounded stabilisation (3 x timeout + 20 intervals), then an observation window of 2 x timeout in which every running node must list exactly the running addresses, all agree on the leader, exactly one considers itself leader and no ClusterMembersChanged/ClusterLeaderChanged event is published. A phase during which the scheduler stalled is inconclusive. non-trivial+distinct = phases whose fixpoint was reached with >= 3 running nodes")
 	defer R.Flush()
+	if verifrt.Mine(1) {
+		vfRunCrashScenario(R) // shard 1 of 2 (with a single shard: after the first scenario)
+	}
 	if !verifrt.Mine(0) {
 		return
 	}
@@ -305,4 +312,326 @@ func TestVerif_gossipreal(t *testing.T) {
 		R.Violate(4, "c18-stop", "real:stop", err.Error(), nil)
 	}
 	phase(4, "two non-seed nodes stop at once")
+}
+
+// ---------------------------------------------------------------------------------------------------------------------
+// Crash scenario (shard 1): one member runs in a CHILD PROCESS of this test binary and is killed with SIGKILL — a real
+// crash: no Leave, no close handshake, the kernel resets its sockets. The child owns the smallest address and is not a
+// seed, so while it lives it is the leader: its crash is a leader crash. Phases: join; crash; restart at the same address
+// after the removal; crash + immediate restart (the new incarnation arrives before the old one was removed).
+
+// TestVerif_gossiprealchild is the child's body; it does nothing unless VF_CHILD_ADDR is set (the driver never selects it).
+func TestVerif_gossiprealchild(t *testing.T) {
+	addr := os.Getenv("VF_CHILD_ADDR")
+	if addr == "" {
+		return
+	}
+	seeds := strings.Split(os.Getenv("VF_CHILD_SEEDS"), ",")
+	n, err := vfRealStart(addr, seeds, time.Now(), 300*time.Millisecond, 3*time.Second)
+	if err != nil {
+		fmt.Printf("VFCHILD ERROR %v\n", err)
+		os.Exit(3)
+	}
+	go func() { // the parent's death closes our stdin: never outlive it
+		buf := make([]byte, 16)
+		for {
+			if _, err := os.Stdin.Read(buf); err != nil {
+				os.Exit(0)
+			}
+		}
+	}()
+	for {
+		var got []string
+		if ms, err := n.sys.Cluster().GetMembers(); err == nil {
+			for _, m := range ms {
+				got = append(got, m.Address)
+			}
+		}
+		sort.Strings(got)
+		leader := ""
+		if v, err := n.sys.Cluster().GetView(); err == nil {
+			leader = v.LeaderAddr
+		}
+		fmt.Printf("VFCHILD VIEW %s LEADER %s\n", strings.Join(got, ","), leader)
+		time.Sleep(100 * time.Millisecond)
+	}
+}
+
+type vfRealChild struct {
+	addr   string
+	cmd    *exec.Cmd
+	stdin  io.WriteCloser
+	mu     sync.Mutex
+	view   string // last "members LEADER leader" line
+	viewAt time.Time
+	errs   []string
+	alive  bool
+}
+
+func vfRealSpawnChild(addr string, seeds []string) (*vfRealChild, error) {
+	c := &vfRealChild{addr: addr, alive: true}
+	c.cmd = exec.Command(os.Args[0], "-test.run", "^TestVerif_gossiprealchild$", "-test.timeout", "20m")
+	c.cmd.Env = append(os.Environ(), "VF_CHILD_ADDR="+addr, "VF_CHILD_SEEDS="+strings.Join(seeds, ","), "VERIF_OUT=")
+	in, err := c.cmd.StdinPipe()
+	if err != nil {
+		return nil, err
+	}
+	c.stdin = in
+	out, err := c.cmd.StdoutPipe()
+	if err != nil {
+		return nil, err
+	}
+	c.cmd.Stderr = nil
+	if err := c.cmd.Start(); err != nil {
+		return nil, err
+	}
+	go func() {
+		sc := bufio.NewScanner(out)
+		sc.Buffer(make([]byte, 1<<20), 1<<20)
+		for sc.Scan() {
+			ln := sc.Text()
+			c.mu.Lock()
+			if strings.HasPrefix(ln, "VFCHILD VIEW ") {
+				c.view = strings.TrimPrefix(ln, "VFCHILD VIEW ")
+				c.viewAt = time.Now()
+			} else if strings.HasPrefix(ln, "VFCHILD ERROR") || strings.HasPrefix(ln, "panic:") || strings.HasPrefix(ln, "fatal error:") {
+				c.errs = append(c.errs, ln)
+			}
+			c.mu.Unlock()
+		}
+	}()
+	return c, nil
+}
+
+func (c *vfRealChild) crash() {
+	c.mu.Lock()
+	c.alive = false
+	c.mu.Unlock()
+	_ = c.cmd.Process.Signal(syscall.SIGKILL)
+	_, _ = c.cmd.Process.Wait()
+	_ = c.stdin.Close()
+}
+
+func (c *vfRealChild) lastView() (members, leader string, age time.Duration) {
+	c.mu.Lock()
+	defer c.mu.Unlock()
+	p := strings.SplitN(c.view, " LEADER ", 2)
+	if len(p) == 2 {
+		members, leader = p[0], p[1]
+	}
+	return members, leader, time.Since(c.viewAt)
+}
+
+// vfCrashFixpoint: like vfRealFixpoint with the child (if alive) as one more running node whose view arrives over its stdout.
+func vfCrashFixpoint(nodes []*vfRealNode, child *vfRealChild) (why string, leader string) {
+	var want []string
+	for _, n := range nodes {
+		if n.up {
+			want = append(want, n.addr)
+		}
+	}
+	if child != nil && child.alive {
+		want = append(want, child.addr)
+	}
+	sort.Strings(want)
+	wantS := strings.Join(want, ",")
+	leaders := map[string]bool{}
+	for _, n := range nodes {
+		if !n.up {
+			continue
+		}
+		ms, err := n.sys.Cluster().GetMembers()
+		if err != nil {
+			return fmt.Sprintf("%s: GetMembers: %v", n.addr, err), ""
+		}
+		var got []string
+		for _, m := range ms {
+			got = append(got, m.Address)
+		}
+		sort.Strings(got)
+		if strings.Join(got, ",") != wantS {
+			return fmt.Sprintf("%s lists %v, running are %v", n.addr, got, want), ""
+		}
+		v, err := n.sys.Cluster().GetView()
+		if err != nil {
+			return fmt.Sprintf("%s: GetView: %v", n.addr, err), ""
+		}
+		leaders[v.LeaderAddr] = true
+		leader = v.LeaderAddr
+	}
+	if child != nil && child.alive {
+		ms, ld, age := child.lastView()
+		if age > 2*time.Second {
+			return fmt.Sprintf("child %s has not reported a view for %v", child.addr, age), ""
+		}
+		if ms != wantS {
+			return fmt.Sprintf("child %s lists [%s], running are %v", child.addr, ms, want), ""
+		}
+		leaders[ld] = true
+	}
+	if len(leaders) != 1 {
+		return fmt.Sprintf("leaders differ: %v", leaders), ""
+	}
+	found := false
+	for _, a := range want {
+		if a == leader {
+			found = true
+		}
+	}
+	if !found {
+		return fmt.Sprintf("the common leader %q is not a running node (%v)", leader, want), ""
+	}
+	return "", leader
+}
+
+func vfRunCrashScenario(R *verifrt.Report) {
+	const interval, timeout = 300 * time.Millisecond, 3 * time.Second
+	stab := 3*timeout + 20*interval
+	window := 2 * timeout
+	t0 := time.Now()
+	addrs := []string{vfRealAddr(), vfRealAddr(), vfRealAddr(), vfRealAddr()}
+	sort.Strings(addrs)
+	childAddr := addrs[0] // smallest address: the leader while it is alive; not a seed
+	seeds := []string{addrs[1]}
+	var nodes []*vfRealNode
+	var child *vfRealChild
+	defer func() {
+		if child != nil && child.alive {
+			child.crash()
+		}
+		for _, n := range nodes {
+			if n.up {
+				_ = vfRealStop(n)
+			}
+		}
+	}()
+	dump := func() string {
+		var sb strings.Builder
+		for _, n := range nodes {
+			n.ev.mu.Lock()
+			fmt.Fprintf(&sb, "%s up=%v: %s\n", n.addr, n.up, strings.Join(n.ev.evs, " | "))
+			n.ev.mu.Unlock()
+		}
+		if child != nil {
+			ms, ld, age := child.lastView()
+			fmt.Fprintf(&sb, "child %s alive=%v last view [%s] leader %s (%v ago) errs=%v\n", child.addr, child.alive, ms, ld, age, child.errs)
+		}
+		return sb.String()
+	}
+	phase := func(idx int, name string) {
+		R.Journal(idx, name)
+		var maxStall time.Duration
+		stop := make(chan struct{})
+		var wg sync.WaitGroup
+		wg.Add(1)
+		go func() {
+			defer wg.Done()
+			last := time.Now()
+			for {
+				select {
+				case <-stop:
+					return
+				case <-time.After(10 * time.Millisecond):
+				}
+				if d := time.Since(last) - 10*time.Millisecond; d > maxStall {
+					maxStall = d
+				}
+				last = time.Now()
+			}
+		}()
+		deadline := time.Now().Add(stab)
+		why, _ := vfCrashFixpoint(nodes, child)
+		for why != "" && time.Now().Before(deadline) {
+			time.Sleep(100 * time.Millisecond)
+			why, _ = vfCrashFixpoint(nodes, child)
+		}
+		reached := why == ""
+		before := vfRealCount(nodes)
+		var late, leader string
+		if reached {
+			time.Sleep(window)
+			why, leader = vfCrashFixpoint(nodes, child)
+			if n := vfRealCount(nodes); n != before {
+				late = fmt.Sprintf("%d membership / leader events were published during the observation window", n-before)
+			}
+		}
+		close(stop)
+		wg.Wait()
+		R.Eval()
+		iam, running := 0, 0
+		for _, n := range nodes {
+			if !n.up {
+				continue
+			}
+			running++
+			if v, err := n.sys.Cluster().GetView(); err == nil && v.LeaderAddr == n.addr {
+				iam++
+			}
+		}
+		if child != nil && child.alive {
+			running++
+			if _, ld, _ := child.lastView(); ld == child.addr {
+				iam++
+			}
+		}
+		var viol []string
+		if !reached {
+			viol = append(viol, fmt.Sprintf("c18-no-fixpoint|fixpoint not reached within %v: %s", stab, why))
+		} else {
+			if why != "" {
+				viol = append(viol, "c18-fixpoint-lost|the fixpoint was reached and lost again: "+why)
+			}
+			if late != "" {
+				viol = append(viol, "c18-announcements-after-fixpoint|"+late)
+			}
+			if iam != 1 {
+				viol = append(viol, fmt.Sprintf("c18-self-leaders|%d running nodes consider themselves leader (common leader %s)", iam, leader))
+			}
+		}
+		if child != nil && len(child.errs) > 0 {
+			R.Inconcl(fmt.Sprintf("phase %q: child process reported %v", name, child.errs))
+			return
+		}
+		if maxStall > time.Second && len(viol) > 0 {
+			R.Inconcl(fmt.Sprintf("phase %q: scheduler stall of %v: %v", name, maxStall, viol))
+			return
+		}
+		for _, v := range viol {
+			kv := strings.SplitN(v, "|", 2)
+			R.Violate(idx, kv[0], "realcrash:"+name, kv[1]+"\nevents:\n"+dump(), map[string]any{"phase": name})
+		}
+		if reached && running >= 3 {
+			R.Nontrivial("crash:" + name)
+		}
+		R.Sample(map[string]any{"phase": name, "running": running, "fixpoint_reached": reached, "self_leaders": iam, "leader": leader, "max_stall": maxStall.String()})
+	}
+	for i := 1; i < 4; i++ {
+		n, err := vfRealStart(addrs[i], seeds, t0, interval, timeout)
+		if err != nil {
+			R.Inconcl("start: " + err.Error())
+			return
+		}
+		nodes = append(nodes, n)
+	}
+	var err error
+	if child, err = vfRealSpawnChild(childAddr, seeds); err != nil {
+		R.Inconcl("child: " + err.Error())
+		return
+	}
+	phase(10, "3 nodes + a child process (smallest address, leader) join through one seed")
+	child.crash()
+	R.Obs("crashes_sigkill", 1)
+	phase(11, "the leader's process is killed with SIGKILL (no Leave, sockets reset)")
+	if child, err = vfRealSpawnChild(childAddr, seeds); err != nil {
+		R.Inconcl("child: " + err.Error())
+		return
+	}
+	phase(12, "a new process starts at the crashed address after the removal (fresh node id)")
+	child.crash()
+	R.Obs("crashes_sigkill", 1)
+	if child, err = vfRealSpawnChild(childAddr, seeds); err != nil {
+		R.Inconcl("child: " + err.Error())
+		return
+	}
+	phase(13, "SIGKILL and immediate restart at the same address: the new incarnation arrives before the old one is removed")
 }
